@@ -75,6 +75,12 @@ func (f *FnVC) call(st *State, instr ssa.Instruction, c *ssa.CallCommon, pos tok
 }
 
 func (f *FnVC) doCall(st *State, instr ssa.Instruction, c *ssa.CallCommon, keys []string, fn *ssa.Function, display string, args []Val, rt types.Type, pos token.Pos) Val {
+	// promoted methods: use the declared method (and its contract) on the embedded receiver
+	if real, na, ok := f.unwrapPromoted(st, fn, args); ok {
+		fn, args = real, na
+		keys = []string{FuncKey(real)}
+		display = FuncKey(real)
+	}
 	// lock operations are built in
 	if len(keys) > 0 {
 		if res, ok := f.lockOp(st, keys[0], c, args, rt, pos); ok {
@@ -317,7 +323,7 @@ func (f *FnVC) applyContract(st *State, ct *spec.FuncContract, fn *ssa.Function,
 		f.oblige("pre", shortKey(ct.Target)+":"+lbl, st, v.T, pos, "precondition of "+ct.Target+": "+r.Text)
 	}
 	// implicit precondition of verified module functions: called without locks held (unless the contract talks about held)
-	if !ct.Trusted && !ct.Pure && !contractMentionsHeld(ct) && f.usesLocks {
+	if !ct.Trusted && !ct.Pure && !ct.NoBody && !contractMentionsHeld(ct) && f.usesLocks && fnLocks(fn) {
 		f.oblige("pre", shortKey(ct.Target)+":lockfree", st, f.noLocksHeld(st), pos, "callee "+ct.Target+" is verified assuming no locks are held at entry")
 	}
 	// frame: havoc what the contract may modify
